@@ -13,7 +13,7 @@ import (
 func init() {
 	register(&Property{
 		ID:      "C01",
-		Explain: "FOLD with byte lanes. (1) ws.HeaderSize, ws.WriteHeader: evaluated over Fin x Rsv(0..7) x OpCode(0..15) x Masked x Length cells (cells split at every constant the code compares Length with); the bytes handed to the single w.Write are compared lane by lane with the RFC 6455 5.2 layout (byte0 = Fin<<7|Rsv<<4|OpCode, byte1 = Masked<<7|len7, big-endian extended length, then the 4 mask lanes), the count must equal HeaderSize and be minimal. (2) ws.ReadHeader and wsutil.(*Reader).readHeader: evaluated for all 65536 values of the first two bytes with the following bytes as named input lanes; the number and size of io.ReadFull calls, every decoded field, the MSB refusal and the propagation of a failed read are compared with the same reference, so the two decoders agree with the RFC and with each other and consume exactly the header. (3) ReadFrame / WriteFrame / CompileFrame are header codec + exactly Length payload bytes (effect sequence). Encoder and decoder are checked against one reference layout, hence are mutual inverses on every minimally encoded header. NextReader is folded: the Reader it creates reads from exactly the source it was given (nothing in between that could read ahead) and starts pristine.",
+		Explain: "FOLD with byte lanes. (1) ws.HeaderSize, ws.WriteHeader: evaluated over Fin x Rsv(0..7) x OpCode(0..15) x Masked x Length cells (cells split at every constant the code compares Length with); the bytes handed to the single w.Write are compared lane by lane with the RFC 6455 5.2 layout (byte0 = Fin<<7|Rsv<<4|OpCode, byte1 = Masked<<7|len7, big-endian extended length, then the 4 mask lanes), the count must equal HeaderSize and be minimal. (2) ws.ReadHeader and wsutil.(*Reader).readHeader: evaluated for all 65536 values of the first two bytes with the following bytes as named input lanes; the number and size of io.ReadFull calls, every decoded field, the MSB refusal and the propagation of a failed read are compared with the same reference, so the two decoders agree with the RFC and with each other and consume exactly the header. (3) ReadFrame / WriteFrame / CompileFrame are header codec + exactly Length payload bytes (effect sequence). Encoder and decoder are checked against one reference layout, hence are mutual inverses on every minimally encoded header. NextReader is folded: the Reader it creates reads from exactly the source it was given (nothing in between that could read ahead) and starts pristine. nextframe-ext-chain runs here as well: the header Reader.NextFrame hands back is, field by field (fin, opcode, masked, mask, length), the one its decoder produced, with only the RSV bits passed through the extensions - a continuation stays a continuation.",
 		Trusted: []string{"go/ssa + go/types", "encoding/binary.BigEndian is big-endian (modelled as lane intrinsics)", "io.ReadFull fills the whole slice or fails", "the checker's abstract evaluator"},
 		Assume:  []string{"Rsv <= 7, OpCode <= 15, 0 <= Length <= 2^63-1 (the property's domain)"},
 		Run:     runC01,
